@@ -279,7 +279,7 @@ def raisedIn : Region → List Cls
   | .parseInputInner =>
       -- whatever deliberate class a parser rule or constructor raises, after objectInit / constructMap
       (deliberateRaw.map (fun c => constructMap (objectInitMap c))) ++ (deliberateRaw.map constructMap)
-        ++ [constructMap .ParsingError] ++ (raises .numberedAppend).filter (fun c => c != .TypeError)
+        ++ [constructMap .ParsingError] ++ raises .numberedAppend
   | .parseInputOuter => raises .readData ++ (raises .readInputInit).filter (fun c => c != .ValueError) ++ [.FileNotFoundError]
   | .parseInputConstructKeep => []
   | .parseInputConstructMap => []
@@ -289,7 +289,7 @@ where
   /-- classes raised by `raise` statements in parser rules and object constructors (grep over montepy/) -/
   deliberateRaw : List Cls :=
     [.MalformedInputError, .ParsingError, .BrokenObjectLinkError, .RedundantParameterSpecification, .UnsupportedFeature,
-     .UnknownElement, .ValueError, .ParticleTypeNotInProblem, .ParticleTypeNotInCell, .IllegalState]
+     .UnknownElement, .ValueError, .TypeError, .ParticleTypeNotInProblem, .ParticleTypeNotInCell, .IllegalState]
 
 /-- the documented set of C13: MalformedInputError and subclasses, NumberConflictError, UnsupportedFeature,
     UnknownElement, ValueError, TypeError, FileNotFoundError -/
